@@ -259,7 +259,21 @@ func DecodeClaimsFromJSON(buf []byte) (IClaims, error) {
 	}
 
 	if found == nil {
-		return nil, errors.New(`could not match profile`)
+		// a profile member that matched no registered profile is an
+		// error; in the absence of any profile member, Profile1
+		// (PSA_IOT_PROFILE_1) is assumed, as for CBOR
+		for _, entry := range profilesRegister {
+			if _, ok := decoded[entry.JSONTag]; ok {
+				return nil, errors.New(`could not match profile`)
+			}
+		}
+
+		entry, ok := profilesRegister[""]
+		if !ok {
+			return nil, errors.New(`could not match profile`)
+		}
+
+		found = entry.Profile
 	}
 
 	claims := found.GetClaims()
